@@ -304,6 +304,20 @@ impl MixWorld {
 		}
 	}
 
+	/// change the volume of route `r` (index into the node's route table) of node i
+	pub fn set_node_route(&mut self, i: usize, r: usize, db: f32, dur: f64) {
+		if r >= self.nodes[i].routes.len() {
+			return;
+		}
+		let s = self.nodes[i].routes[r].0;
+		let Some(id) = self.sends[s].handle.as_ref().map(|h| h.id()) else { return };
+		if let Some(h) = self.nodes[i].handle.as_mut() {
+			if h.set_send(id, db, tween(dur)).is_ok() {
+				self.nodes[i].routes[r].1.set(Decibels(db), dur, Easing::Linear, SM::Imm);
+			}
+		}
+	}
+
 	fn children(&self, p: Option<usize>) -> Vec<usize> {
 		(0..self.nodes.len()).filter(|i| self.nodes[*i].parent == p && !self.nodes[*i].removed).collect()
 	}
